@@ -330,7 +330,8 @@ def gen_capacity(p, rng, limit):
             elif c < 0.95:
                 ls.append("@0 px")
             else:
-                ls.append("@0 update | 5.0.0:PC0.0,PR0,PC1.1 ; 6.0.0:PR1,PC0.1")
+                hi = 1 % N      # (a one-state machine has no state 1: naming it would be outside the contract)
+                ls.append("@0 update | 5.0.0:PC0.0,PR0,PC%d.%d ; 6.0.0:PR1,PC0.%d" % (hi, hi, hi))
         out += ls
     return "\n".join(out) + "\n"
 
